@@ -79,6 +79,7 @@ struct
     int           depth;
     void *        func;
     unsigned long count;
+    unsigned long iters;	/* running hash of (level, table index) of the iterators picked */
 } pixman_verif_last_lookup;
 
 int
@@ -381,6 +382,12 @@ _pixman_implementation_iter_init (pixman_implementation_t *imp,
                 {
                     iter->get_scanline = info->get_scanline;
                     iter->write_back = info->write_back;
+#ifdef PIXMAN_VERIF
+		    pixman_verif_last_lookup.iters =
+			pixman_verif_last_lookup.iters * 31 +
+			(unsigned long) (info - imp->iter_info) * 7 +
+			(unsigned long) pixman_verif_chain_length (imp);
+#endif
 
                     if (info->initializer)
                         info->initializer (iter, info);
